@@ -32,7 +32,7 @@ def set_r(r):
 
 
 def gen(rng):
-    size = rng.choice([4, 5, 6, 8, 10, 12, 16, 24, 32, 64])
+    size = rng.choice([1, 2, 3, 4, 5, 6, 8, 10, 12, 16, 24, 32, 64])
     pos = rng.choice([0, 0, 1, 2, 3])
     if pos >= size:
         pos = 0
@@ -53,7 +53,7 @@ def gen(rng):
 def gen_fill(rng):
     """Fill the partition completely (first and last address in use), then free first / last / neighbours so that
     merges with the previous, the next and BOTH neighbours happen, then ask for large runs."""
-    size = rng.choice([4, 5, 6, 8, 10, 12, 16])
+    size = rng.choice([1, 2, 3, 4, 5, 6, 8, 10, 12, 16])
     pos = rng.choice([0, 0, 1, 2])
     if pos >= size - 1:
         pos = 0
